@@ -810,6 +810,30 @@ def monitorOp (mu : Mon) (prev : Args) (toks : List String) (implOk : Bool) (out
         | some r', some p =>
           if r.status == "open" && r'.status == "rejected" && isExp p.expires blk && !(kind == "close" && r.id == opId) then some r.id else none
         | _, _ => none)
+    -- an executed proposal's deposit is returned: the handler's messages are the refund followed by the
+    -- proposal's own messages (a proposal message that merely looks like the refund does not replace it);
+    -- a Close with refunds enabled returns exactly the refund
+    let f15 := f15 ++ (if fresh || !handlerOk || !(kind == "execute" || kind == "close") then [] else
+      match findProp P opId with
+      | some p =>
+        (match refundText p.dep p.proposer, parseDep p.dep with
+          | some r, some d =>
+            let got := splitMsgs outMsgs
+            if kind == "execute" then
+              (if got == r :: splitMsgs p.msgs then [] else
+                [mk "C15" "C15/executed-not-refunded" s!"id={opId} returned={outMsgs} expected refund {r} first"])
+            else if d.2.2.2 then
+              (if got == [r] then [] else [mk "C15" "C15/close-refund-missing" s!"id={opId} returned={outMsgs} expected {r}"])
+            else (if got == [] then [] else [mk "C15" "C15/refund-when-disabled" s!"id={opId} returned={outMsgs}"])
+          | _, _ => [])
+      | none => [])
+    -- a deposit leaves the multisig only through Execute or Close
+    let f15 := f15 ++ (if fresh || !handlerOk || kind == "execute" || kind == "close" || kind == "propose" then [] else
+      let got := splitMsgs outMsgs
+      (P.props ++ O.props).filterMap fun p =>
+        match refundText p.dep p.proposer with
+        | some r => if got.contains r then some (mk "C15" "C15/refund-outside-execute-close" s!"id={p.id} by {kind}: {outMsgs}") else none
+        | none => none)
     let f15 := f15 ++ refundsNow.flatMap fun id =>
       if (mu.refunded.get? id).getD 0 ≥ 1 then [mk "C15" "C15/refund-twice" s!"id={id} by {kind}"] else []
     let mu := { mu with refunded := refundsNow.foldl (fun m id => m.set id ((m.get? id).getD 0 + 1)) mu.refunded,
